@@ -9,6 +9,10 @@ From Coq Require Import ZArith List Bool.
 From WebP Require Import Lib.Res Lib.Arr Spec.Blend Model.AlphaBlend Model.Anim Spec.Anim
   Proofs.Anim_arr Proofs.Anim_composite Proofs.Anim_play.
 From WebP Require Spec.Container Model.ReadImage Proofs.Container_bytes Proofs.C01_top Proofs.ReadImage_base Proofs.ReadImage_container Proofs.ReadImage_vp8l Proofs.ReadImage_lossless Proofs.ReadImage_lossy Proofs.ReadImage_stillspec Proofs.ReadImage_wrap Proofs.ReadImage_safe Proofs.ReadImage_frame Proofs.ReadImage_anim.
+From WebP Require Spec.VP8 Model.Vp8Decode Proofs.VP8_decode_main Proofs.VP8_decode_planes Proofs.VP8_decode_readimage.
+From WebP Require Spec.Container Spec.YUV Spec.VP8 Spec.Anim Model.AlphaBlend Model.Anim Model.ReadImage Model.Vp8Decode Proofs.C15_model Proofs.Container_bytes Proofs.C01_top Proofs.Anim_play
+  Proofs.ReadImage_base Proofs.ReadImage_container Proofs.ReadImage_lossy Proofs.ReadImage_wrap Proofs.ReadImage_safe Proofs.ReadImage_frame Proofs.ReadImage_anim
+  Proofs.VP8_decode_main Proofs.VP8_decode_planes Proofs.VP8_decode_readimage.
 Import ListNotations.
 Open Scope Z_scope.
 
@@ -158,3 +162,46 @@ Module G.
   Proof. exact ReadImage_anim.play_from_file. Qed.
 
 End G.
+
+(* ---------------- animations with lossy frames, frame decoder instantiated (C06) ---------------- *)
+Module GC.
+  Import Spec.Container Spec.YUV Model.ReadImage Proofs.ReadImage_base Proofs.ReadImage_container Proofs.ReadImage_lossy Proofs.ReadImage_frame Proofs.ReadImage_anim
+    Proofs.VP8_decode_main Proofs.VP8_decode_readimage.
+
+  (* frame_decodes_spec = ReadImage_anim.frame_decodes with `vp8 payload = Ok planes /\ planes_ok` replaced by
+     `Spec.VP8.decode payload = Some planes /\ decode_hyps_b payload = true` *)
+  Theorem read_frame_from_file_spec_closed :
+    forall (c : container) (ms : list Anim.mframe),
+           wf c = true -> anim c = true ->
+           Forall2 (frame_decodes_spec (fst (dims c)) (snd (dims c))) (frames c) ms ->
+           fst (dims c) * snd (dims c) * 4 < 4294967296 ->
+           exists dec : Container_bytes.M.decoder,
+             Container_bytes.M.new (serialize c) = Ok dec /\
+             Container_bytes.M.num_frames dec = Z.of_nat (length ms) /\
+             (forall buf : list Z,
+              len buf = buffer_size c ->
+              (forall k : nat,
+               (k < length ms)%nat ->
+               nth_error (play Vp8Decode.decode_frame dec (S (length ms)) buf) k =
+               Some
+                 (Ok (Spec.Anim.duration (Anim_play.anim_of (anim_file c ms)) k),
+                  Spec.Anim.render (alpha c) (fst (dims c)) (snd (dims c))
+                    (Spec.Anim.frames_upto AlphaBlend.do_alpha_blending (Anim_play.anim_of (anim_file c ms)) k))) /\
+              (exists b : list Z, nth_error (play Vp8Decode.decode_frame dec (S (length ms)) buf) (length ms) = Some (Err ENoMoreFrames, b))).
+  Proof. exact VP8_decode_readimage.read_frame_from_file_spec_closed. Qed.
+
+  Theorem play_from_file_closed :
+    forall (c : container) (ms : list Anim.mframe),
+           wf c = true -> anim c = true ->
+           Forall2 (frame_decodes_spec (fst (dims c)) (snd (dims c))) (frames c) ms ->
+           fst (dims c) * snd (dims c) * 4 < 4294967296 ->
+           Anim_play.valid_file (anim_file c ms) /\
+           (exists dec : Container_bytes.M.decoder,
+              Container_bytes.M.new (serialize c) = Ok dec /\
+              (forall buf : list Z,
+               len buf = buffer_size c ->
+               play Vp8Decode.decode_frame dec (length ms) buf = Anim.play (anim_file c ms) buf /\
+               play Vp8Decode.decode_frame dec (S (length ms)) buf =
+               Anim.play (anim_file c ms) buf ++ [(Err ENoMoreFrames, last (map snd (Anim.play (anim_file c ms) buf)) buf)])).
+  Proof. exact VP8_decode_readimage.play_from_file_closed. Qed.
+End GC.
